@@ -205,6 +205,17 @@ def cases(rng, tier):
         for size in sizes:
             for c in itertools.product(sp, repeat=3):
                 yield mk("bytes=" + ",".join(c), size)
+    # very many ranges that stay apart after merging (the count itself must not matter): k single bytes / short runs
+    # with gaps, in order, reversed and shuffled, on files that hold them and on files that clip them
+    for k in (2, 16, 63, 64, 65, 66, 100, 128, 129, 256, 257, 1000, 1024, 1025):
+        for step, width in ((2, 1), (3, 2), (7, 3)):
+            specs_k = ["%d-%d" % (i * step, i * step + width - 1) for i in range(k)]
+            for size in (k * step + 5, k * step - step // 2, max(1, k * step // 2)):
+                yield mk("bytes=" + ",".join(specs_k), size)
+                yield mk("bytes=" + ", ".join(reversed(specs_k)), size)
+            shuffled = list(specs_k)
+            rng.shuffle(shuffled)
+            yield mk("bytes=" + ",".join(shuffled), k * step + 1)
     n_random = 6000 if tier == "quick" else 120000
     for _ in range(n_random):
         kind = rng.random()
